@@ -30,7 +30,7 @@ for S in $seeds; do
   [ "$S" = "C07-3" ] && props="C07 C02"
   [ "$S" = "C17-6" ] && props="C17 C18"
   [ "$S" = "C15-5" ] && props="C15 C14"
-  [ "$S" = "C12-5" ] && props="C12 C16"
+  [ "$S" = "C12-5" ] && props="C12 C01 C04"
   [ "$S" = "C12-6" ] && props="C12 C16"
   [ "$S" = "C12-4" ] && props="C12 C02"
   [ "$S" = "C01-4" ] && props="C01 C17"
